@@ -9,9 +9,9 @@ from . import common
 from .model import runs_of
 
 GFLAV = {
-    0: dict(name='int-T-2', ids=[0, 1, 2, 3], T0=-2),      # with 4 instants: -2..1 — two negative ids, 0 interior
-    1: dict(name='str-T8', ids=['ab', 'a', 'b', 'abc'], T0=8),   # 8, 9, 10: ids change their number of digits; 'a' is a prefix of 'ab'
-    2: dict(name='int-prefix-THUGE', ids=[10, 1, 100, 11], T0=2 ** 60),   # str(1) is a prefix of str(10); instants beyond 2**53 (and the small-int cache)
+    0: dict(name='int-T-2', ids=[0, 1, 2, 3, 4], T0=-2),      # with 4 instants: -2..1 — two negative ids, 0 interior
+    1: dict(name='str-T8', ids=['ab', 'a', 'b', 'abc', 'c'], T0=8),   # 8, 9, 10: ids change their number of digits; 'a' is a prefix of 'ab'
+    2: dict(name='int-prefix-THUGE', ids=[10, 1, 100, 11, 2], T0=2 ** 60),   # str(1) is a prefix of str(10); instants beyond 2**53 (and the small-int cache)
 }
 
 
@@ -20,7 +20,8 @@ def gconf(cls, flavour, n_nodes, n_times, k, loops=False):
 
 
 def gconf_name(c):
-    return '%s/%s/n%d/T%d/k%d%s' % (c['cls'], GFLAV[c['flavour']]['name'], c['n'], c['nt'], c['k'], '/loops' if c['loops'] else '')
+    return '%s/%s/n%d/T%d/k%d%s%s' % (c['cls'], GFLAV[c['flavour']]['name'], c['n'], c['nt'], c['k'], '/loops' if c['loops'] else '',
+                                    '/one-contact-per-instant' if c.get('seq') else '')
 
 
 def universe(c):
@@ -41,12 +42,22 @@ def universe(c):
 def count_graphs(c):
     nodes, T, pairs, atoms = universe(c)
     import math
+    if c.get('seq'):
+        return sum(len(pairs) ** L for L in range(0, min(c['k'], c['nt']) + 1))
     return sum(math.comb(len(atoms), r) for r in range(0, min(c['k'], len(atoms)) + 1))
 
 
 def iter_graphs(c):
     """all atom subsets with <= k atoms, smallest first (so the first counterexample is smallest)"""
     nodes, T, pairs, atoms = universe(c)
+    if c.get('seq'):
+        # contact sequences: exactly one timed interaction at each of the first L instants, every choice of pair at every
+        # instant (|pairs|**L histories) — deep in time where the subset universes are wide
+        nt = c['nt']
+        for L in range(0, min(c['k'], nt) + 1):
+            for seq in itertools.product(range(len(pairs)), repeat=L):
+                yield tuple(sorted(p * nt + t for t, p in enumerate(seq)))
+        return
     for r in range(0, min(c['k'], len(atoms)) + 1):
         for sub in itertools.combinations(range(len(atoms)), r):
             yield sub
